@@ -366,6 +366,8 @@ pub fn rich_h2(r: &mut Rng, id: u64, hostile: bool) -> (Vec<u8>, Vec<u8>) {
 pub fn ep_for(r: &mut Rng, id: u64, v6: bool) -> Endpoints {
     let cport = 1025 + ((id * 7 + r.below(50000)) % 64000) as u16;
     let sport = *r.pick(&[80u16, 443, 8080, 8443]);
+    // (a connection from an address and port to the same address and port has no directions)
+    let cport = if cport == sport { cport + 1 } else { cport };
     if r.chance(1, 10) {
         // loopback-style connection: client and server on the same address
         return if v6 {
